@@ -307,6 +307,104 @@ after "values[packet_id] = buf.remaining_bytes().to_vec();" {
 @*/
 }
 
+// ---------------- key/value block of a data packet (C04: the raw-variables part) ----------------
+pub open spec fn enc_vars(vs: Seq<(Seq<char>, Seq<char>)>, i: int, tail: Seq<u8>) -> Seq<u8>
+    decreases vs.len() - i
+{
+    if i < 0 || i >= vs.len() { tail } else { rn!(cstr(vs[i].0); cstr(vs[i].1); enc_vars(vs, i + 1, tail)) }
+}
+pub open spec fn vars_valid(vs: Seq<(Seq<char>, Seq<char>)>) -> bool {
+    forall|j: int| 0 <= j < vs.len() ==> no_nul(#[trigger] vs[j].0) && vs[j].0.len() > 0 && no_nul(vs[j].1)
+}
+/// the map obtained by inserting the pairs in order (a later duplicate replaces an earlier one)
+pub open spec fn map_of(ins: Seq<(String, String)>) -> Map<String, String>
+    decreases ins.len()
+{
+    if ins.len() == 0 { Map::empty() } else { map_of(ins.drop_last()).insert(ins.last().0, ins.last().1) }
+}
+pub proof fn lemma_enc_vars_nonempty(vs: Seq<(Seq<char>, Seq<char>)>, i: int, tail: Seq<u8>)
+    requires tail.len() > 0
+    ensures enc_vars(vs, i, tail).len() > 0
+    decreases vs.len() - i
+{
+    broadcast use group_stream;
+    if 0 <= i < vs.len() { lemma_enc_vars_nonempty(vs, i + 1, tail); }
+}
+pub proof fn lemma_closing_nonempty(tail: Seq<u8>)
+    ensures cat(cstr(Seq::<char>::empty()), tail).len() > 0
+{
+    broadcast use group_stream;
+}
+/*@ fn file=crates/lib/src/protocols/gamespy/protocols/three/protocol.rs name=data_to_map props=C04,C01,C13
+use R1 R2
+spec {
+    requires packet@.len() <= isize::MAX,
+    ensures
+        // C04: a block of key/value strings closed by an empty key yields exactly those pairs (later duplicate wins) and the
+        // bytes after the closing NUL, untouched
+        forall|vs: Seq<(Seq<char>, Seq<char>)>, tail: Seq<u8>| vars_valid(vs) && packet@ == #[trigger] enc_vars(vs, 0, cat(cstr(Seq::<char>::empty()), tail))
+            ==> r is Ok && r->Ok_0.1@ == tail && exists|ins: Seq<(String, String)>| ins.len() == vs.len()
+                    && (forall|j: int| 0 <= j < vs.len() ==> (#[trigger] ins[j]).0@ == vs[j].0 && ins[j].1@ == vs[j].1)
+                    && r->Ok_0.0@ == map_of(ins),
+}
+body_start {
+    broadcast use group_cstr, group_wire, vstd::std_specs::hash::group_hash_axioms, axiom_string_obeys_key_model;
+    let ghost mut ins: Seq<(String, String)> = Seq::empty();
+}
+before "vars.insert(key, value);" {
+    let ghost prev = ins;
+    proof { ins = ins.push((key, value)); assert(ins.drop_last() =~= prev); assert(ins.last() == (key, value)); }
+}
+before "let key = buf.read_string::<Utf8Decoder>(None)?;" {
+    broadcast use group_cstr, group_wire, vstd::std_specs::hash::group_hash_axioms, axiom_string_obeys_key_model;
+    proof {
+        assert(no_nul(Seq::<char>::empty()));
+        assert forall|vs: Seq<(Seq<char>, Seq<char>)>, tail: Seq<u8>| vars_valid(vs) && packet@ == #[trigger] enc_vars(vs, 0, cat(cstr(Seq::<char>::empty()), tail)) implies
+            (ins.len() < vs.len() ==> buf.rest() == cat(cstr(vs[ins.len() as int].0), cat(cstr(vs[ins.len() as int].1), enc_vars(vs, ins.len() as int + 1, cat(cstr(Seq::<char>::empty()), tail)))))
+            && (ins.len() == vs.len() ==> buf.rest() == cat(cstr(Seq::<char>::empty()), tail)) by {}
+    }
+}
+before "while buf.remaining_length() != 0 {" {
+    proof {
+        assert forall|vs: Seq<(Seq<char>, Seq<char>)>, tail: Seq<u8>| vars_valid(vs) && packet@ == #[trigger] enc_vars(vs, 0, cat(cstr(Seq::<char>::empty()), tail)) implies
+            enc_vars(vs, ins.len() as int, cat(cstr(Seq::<char>::empty()), tail)).len() > 0 by {
+            lemma_closing_nonempty(tail);
+            lemma_enc_vars_nonempty(vs, ins.len() as int, cat(cstr(Seq::<char>::empty()), tail));
+        }
+    }
+}
+after "vars.insert(key, value);" {
+    proof {
+        assert forall|vs: Seq<(Seq<char>, Seq<char>)>, tail: Seq<u8>| vars_valid(vs) && packet@ == #[trigger] enc_vars(vs, 0, cat(cstr(Seq::<char>::empty()), tail)) implies
+            enc_vars(vs, ins.len() as int, cat(cstr(Seq::<char>::empty()), tail)).len() > 0 by {
+            lemma_closing_nonempty(tail);
+            lemma_enc_vars_nonempty(vs, ins.len() as int, cat(cstr(Seq::<char>::empty()), tail));
+        }
+    }
+}
+before "break;" {
+    proof {
+        assert forall|vs: Seq<(Seq<char>, Seq<char>)>, tail: Seq<u8>| vars_valid(vs) && packet@ == #[trigger] enc_vars(vs, 0, cat(cstr(Seq::<char>::empty()), tail)) implies
+            ins.len() == vs.len() && buf.rest() == tail by {
+            if ins.len() < vs.len() { assert(vs[ins.len() as int].0.len() > 0); }
+        }
+    }
+}
+loop 1 {
+    invariant_except_break
+        forall|vs: Seq<(Seq<char>, Seq<char>)>, tail: Seq<u8>| vars_valid(vs) && packet@ == #[trigger] enc_vars(vs, 0, cat(cstr(Seq::<char>::empty()), tail))
+            ==> buf.rest() == enc_vars(vs, ins.len() as int, cat(cstr(Seq::<char>::empty()), tail)) && buf.rest().len() > 0,
+    invariant
+        buf.wf(), buf.bytes() == packet@, vars@ == map_of(ins),
+        forall|vs: Seq<(Seq<char>, Seq<char>)>, tail: Seq<u8>| vars_valid(vs) && packet@ == #[trigger] enc_vars(vs, 0, cat(cstr(Seq::<char>::empty()), tail))
+            ==> ins.len() <= vs.len() && forall|j: int| 0 <= j < ins.len() ==> (#[trigger] ins[j]).0@ == vs[j].0 && ins[j].1@ == vs[j].1,
+    ensures
+        forall|vs: Seq<(Seq<char>, Seq<char>)>, tail: Seq<u8>| vars_valid(vs) && packet@ == #[trigger] enc_vars(vs, 0, cat(cstr(Seq::<char>::empty()), tail))
+            ==> ins.len() == vs.len() && buf.rest() == tail,
+    decreases buf.rest().len(),
+}
+@*/
+
 //@ body-end
 } // verus!
 fn main() {}
